@@ -53,6 +53,10 @@ def opnd_tok(o):
 def row_line(cid, r):
     """Translate one table row (JSON from TLC) to the harness' line protocol."""
     if r["grp"] == "decl":
+        if r["what"] == "greg":
+            steps = list(r["pre"]) + [r["step"]]
+            return "GDECL %s %d %d %s" % (cid, 0 if r["exp"] == "unspec" else 1, len(steps),
+                                          " ".join("%s %s %s" % (s["n"], s["t"], s["hr"]) for s in steps))
         if r["what"] == "reg":
             pre = " ".join("%s %s" % (p["n"], p["t"]) for p in r["pre"])
             return "DREG %s %d %s %s %s" % (cid, len(r["pre"]), pre, r["name"], r["t"])
@@ -208,6 +212,8 @@ def run_harness(lines, variant="plain", par=None):
                     d["steps"].append(("ERROR", rest[5], rest[6] if len(rest) > 6 else ""))
                 else:
                     d["steps"].append(("ACCEPT", None, ""))
+            elif f[0] == "LOOK":
+                d.setdefault("look", {})[int(f[2])] = (f[3], f[4])
             elif f[0] == "OPS":
                 d["ops"] = line.split(" ")[2:]
             elif f[0] == "END":
@@ -221,11 +227,38 @@ def run_harness(lines, variant="plain", par=None):
 
 # ------------------------------------------------------------------ comparison (verdicts come from the spec)
 
-def judge(exp, res):
+def judge_gdecl(exp, res):
+    """Declaration sequence: the verdict of the spec is about the last step, given that the code accepted the
+    earlier ones (an earlier step MIR.md leaves open and the code rejects ends the row: nothing to compare)."""
+    steps = res["steps"]
+    npre = len(exp["pre"])
+    for i, pe in enumerate(exp["preexp"]):
+        if i >= len(steps):
+            return ("crash", "the library died (%s) in declaration step %d" % (res["crash"], i + 1))
+        if steps[i][0] != "ACCEPT":
+            if pe == "unspec":
+                return None
+            return ("reject", "earlier declaration %s rejected (%s_error), MIR.md allows it" % (exp["pre"][i], steps[i][1]))
+    if npre >= len(steps):
+        return ("crash", "the library died (%s) in declaration step %d" % (res["crash"], npre + 1))
+    r2 = dict(res)
+    r2["stages"] = dict(res["stages"])
+    r2["stages"]["build"] = steps[npre] if steps[npre][0] == "ERROR" else ("ACCEPT", None, "")
+    v = judge(exp, r2, _plain=True)
+    if v is None and exp["exp"] == "ok":
+        lk = res.get("look", {}).get(npre + 1)
+        if lk is None or lk[0] != lk[1]:
+            return ("lookup", "MIR_reg (name) after the accepted declaration gives %s, the declaration returned %s" % (lk[1] if lk else None, lk[0] if lk else None))
+    return v
+
+
+def judge(exp, res, _plain=False):
     """exp: dict with exp/codes/anycode (+exec); res: harness result.  Returns (kind, text) or None.
     kind in accept / reject / code / crash / unusable."""
     if res is None:
         return ("crash", "no result from the harness")
+    if exp.get("what") == "greg" and not _plain:
+        return judge_gdecl(exp, res)
     b = res["stages"].get("build")
     if res["crash"] and b is None:
         return ("crash", "the library died (signal/exit %s) while the row was built" % res["crash"])
@@ -380,6 +413,12 @@ def check_rows(ck, rows, variant, mode, mutate=None):
         exp = mutate(r) if mutate else r
         rr = res.get(cid)
         b = rr["stages"].get("build") if rr else None
+        if rr and exp.get("what") == "greg":       # the verdict of a declaration row is that of its last step
+            npre = len(exp["pre"])
+            if len(rr["steps"]) > npre:
+                b = rr["steps"][npre]
+            elif rr["steps"] and rr["steps"][-1][0] == "ERROR":
+                st["unspec_prefix_rejected"] += 1
         st["replayed"] += 1
         st["exp_" + exp["exp"]] += 1
         if b is not None:
